@@ -41,6 +41,10 @@ def run(v) -> None:
                       "truncations: every byte length for data sections <= 48 bytes, 16 sampled lengths otherwise"]
     v.add_tlc(tlc.must_pass(tlc.run("WriterPipe", "MC_WriterPipe_good.cfg" if quick else "MC_WriterPipe_good.cfg",
                                     workers=12), "MC_WriterPipe_good"), "MC_WriterPipe_good")
+    # the top-level composition: input set -> plan -> multi-file read -> unpack -> kernel -> pack -> append, at the byte level
+    for cfg in (["MC_Sigpyproc_b8.cfg"] if quick else ["MC_Sigpyproc_b8.cfg", "MC_Sigpyproc_b2.cfg"]):
+        v.add_tlc(tlc.must_pass(tlc.run("Sigpyproc", cfg, workers=12, timeout=3000), cfg), cfg)
+    tlc.must_fail(tlc.run("Sigpyproc", "MC_Sigpyproc_fullbuf.cfg", workers=8), "composition with full-buffer reads", "NeverShort")
     for bad in ("patchhdr", "buffered"):
         tlc.must_fail(tlc.run("WriterPipe", f"MC_WriterPipe_{bad}.cfg", workers=8), f"WriterPipe variant {bad}")
     tlc.must_fail(tlc.run("WriterPipe", "MC_WriterPipe_witness.cfg", workers=8), "witness crash mid-stream", "WitnessCrashMid")
